@@ -186,10 +186,29 @@ func genTopo(tp *simkit.Tape, small bool) topo {
 		t.Exts = append(t.Exts, fmt.Sprintf("ext/%d", i+1))
 	}
 	for i := 1; i < ne; i++ {
-		// dependencies only on lower-numbered extensions: acyclic
+		// dependencies only on lower-numbered extensions: acyclic. One, or (1 in 3) every lower-numbered one with
+		// probability 1/2; (1 in 4) one of them declared twice - Dependencies() returns a list, not a set
 		if tp.Chance(1, 2) {
 			t.ExtDeps[t.Exts[i]] = append(t.ExtDeps[t.Exts[i]], t.Exts[tp.Draw(i)])
 		}
+		if tp.Chance(1, 3) {
+			for j := 0; j < i; j++ {
+				if tp.Chance(1, 2) && !contains(t.ExtDeps[t.Exts[i]], t.Exts[j]) {
+					t.ExtDeps[t.Exts[i]] = append(t.ExtDeps[t.Exts[i]], t.Exts[j])
+				}
+			}
+		}
+		if d := t.ExtDeps[t.Exts[i]]; len(d) > 0 && tp.Chance(1, 4) {
+			dup := d[tp.Draw(len(d))]
+			at := tp.Draw(len(d) + 1)
+			d = append(d[:at:at], append([]string{dup}, d[at:]...)...)
+			t.ExtDeps[t.Exts[i]] = d
+		}
+	}
+	// the order in which service::extensions lists them means nothing for the start order: a tape-drawn permutation
+	for i := ne - 1; i > 0; i-- {
+		j := tp.Draw(i + 1)
+		t.Exts[i], t.Exts[j] = t.Exts[j], t.Exts[i]
 	}
 	if ne > 0 && tp.Chance(1, 8) {
 		// service::extensions names one extension twice (no validation objects): still one lifetime per extension
